@@ -27,7 +27,10 @@ pub fn c02() -> Check {
     Check {
         property: "C02",
         level: "exploration",
-        scenarios: vec![Box::new(SqlScenario { name: "c02-sql", family: Family::Any, mode: Mode::Exact, need_reference: false, weight: 1, dynamic_filters: false, nlj_focus: false, tight_sort: false })],
+        scenarios: vec![
+            Box::new(SqlScenario { name: "c02-sql", family: Family::Any, mode: Mode::Exact, need_reference: false, weight: 3, dynamic_filters: false, nlj_focus: false, tight_sort: false, file_tables: false, ordered_agg: false }),
+            Box::new(SqlScenario { name: "c02-files", family: Family::Any, mode: Mode::Exact, need_reference: false, weight: 1, dynamic_filters: false, nlj_focus: false, tight_sort: false, file_tables: true, ordered_agg: false }),
+        ],
         cases_quick: 16_000,
         cases_thorough: 400_000,
         rule: "runs: one generated SQL query (joins of every type, semi/anti/NOT IN, nested-loop, cross, GROUP BY, DISTINCT, ORDER BY/LIMIT, UNION [ALL], window functions, IN/scalar subqueries, join+aggregate) over two generated tables split into 1-4 scripted partitions, under a random semantic-neutral configuration (target_partitions 1-8, batch_size 1-8192, join/aggregate/sort/window repartitioning switches, hash-join thresholds, partial-aggregation skipping, dynamic filters, sort pushdown, coalescing, ...), 1-3 copies of the query running concurrently in one session, one scheduler policy per run; result compared with an independent reference evaluator where one exists, otherwise with the baseline configuration (single partition MemTable, defaults). distinct = distinct poll traces; non-trivial = a scheduling decision had >= 2 runnable tasks or a refusal/fault fired",
@@ -40,7 +43,7 @@ fn exact(property: &'static str, name: &'static str, family: Family, rule: &'sta
     Check {
         property,
         level: "exploration",
-        scenarios: vec![Box::new(SqlScenario { name, family, mode: Mode::Exact, need_reference: true, weight: 2, dynamic_filters: false, nlj_focus: false, tight_sort: false })],
+        scenarios: vec![Box::new(SqlScenario { name, family, mode: Mode::Exact, need_reference: true, weight: 2, dynamic_filters: false, nlj_focus: false, tight_sort: false, file_tables: false, ordered_agg: false })],
         cases_quick: 16_000,
         cases_thorough: 400_000,
         rule,
@@ -52,6 +55,9 @@ fn exact(property: &'static str, name: &'static str, family: Family, rule: &'sta
 pub fn c05() -> Check {
     let mut c = c05_base();
     c.scenarios.push(Box::new(crate::c05ops::SymmetricHashJoin));
+    // non-equi joins whose left side needs several chunks under a small limit (the nested loop join's
+    // memory-limited fallback: spilled left side, replayed right side, per-pass and global bitmaps)
+    c.scenarios.push(Box::new(SqlScenario { name: "c05-nlj-fallback", family: Family::Join, mode: Mode::Exact, need_reference: true, weight: 1, dynamic_filters: false, nlj_focus: true, tight_sort: false, file_tables: false, ordered_agg: false }));
     c.cases_quick = 24_000;
     c
 }
@@ -59,11 +65,17 @@ fn c05_base() -> Check {
     exact("C05", "c05-joins", Family::Join, "runs: one generated join query (INNER/LEFT/RIGHT/FULL/LEFT SEMI/LEFT ANTI/RIGHT SEMI/RIGHT ANTI on k, s or (k,s), optional residual a.v<b.v, optional IS NOT DISTINCT FROM; non-equi joins; CROSS JOIN; NOT IN) over generated tables in 1-4 scripted partitions; the planner picks HashJoin (CollectLeft/Partitioned), SortMergeJoin, NestedLoopJoin, PiecewiseMergeJoin or CrossJoin from the generated configuration; a third of the runs under a bounded pool; result multiset compared with a nested-loop reference with SQL three-valued logic. distinct/non-trivial as for C02")
 }
 pub fn c06() -> Check {
+    let mut c = c06_base();
+    c.scenarios.push(Box::new(SqlScenario { name: "c06-ordered", family: Family::Agg, mode: Mode::Exact, need_reference: true, weight: 2, dynamic_filters: false, nlj_focus: false, tight_sort: false, file_tables: false, ordered_agg: true }));
+    c.cases_quick = 24_000;
+    c
+}
+fn c06_base() -> Check {
     exact("C06", "c06-aggregates", Family::Agg, "runs: one generated aggregation (GROUP BY k | s | k,s with count(*), count, sum, min, max, count(DISTINCT); global aggregate; SELECT DISTINCT; grouped TopK with ORDER BY agg LIMIT n) over generated tables in 1-4 scripted partitions; single / partial+final / repartitioned strategies, partial-aggregation skipping thresholds and TopK aggregation chosen by the generated configuration, a third of the runs under a bounded pool (spill-and-merge); compared with a reference GROUP BY. distinct/non-trivial as for C02")
 }
 pub fn c08() -> Check {
     let mut c = c08_base();
-    c.scenarios.push(Box::new(SqlScenario { name: "c08-sorts-tight", family: Family::Sort, mode: Mode::Exact, need_reference: true, weight: 1, dynamic_filters: false, nlj_focus: false, tight_sort: true }));
+    c.scenarios.push(Box::new(SqlScenario { name: "c08-sorts-tight", family: Family::Sort, mode: Mode::Exact, need_reference: true, weight: 1, dynamic_filters: false, nlj_focus: false, tight_sort: true, file_tables: false, ordered_agg: false }));
     c.cases_quick = 24_000;
     c
 }
@@ -76,12 +88,13 @@ pub fn c18() -> Check {
         property: "C18",
         level: "exploration",
         scenarios: vec![
-            Box::new(SqlScenario { name: "c18-sorts", family: Family::Sort, mode: Mode::Pressure, need_reference: true, weight: 2, dynamic_filters: false, nlj_focus: false, tight_sort: false }),
-            Box::new(SqlScenario { name: "c18-aggregates", family: Family::Agg, mode: Mode::Pressure, need_reference: true, weight: 2, dynamic_filters: false, nlj_focus: false, tight_sort: false }),
-            Box::new(SqlScenario { name: "c18-joins", family: Family::Join, mode: Mode::Pressure, need_reference: true, weight: 2, dynamic_filters: false, nlj_focus: false, tight_sort: false }),
-            Box::new(SqlScenario { name: "c18-any", family: Family::Any, mode: Mode::Pressure, need_reference: false, weight: 1, dynamic_filters: false, nlj_focus: false, tight_sort: false }),
-            Box::new(SqlScenario { name: "c18-nlj", family: Family::Join, mode: Mode::Pressure, need_reference: true, weight: 1, dynamic_filters: false, nlj_focus: true, tight_sort: false }),
-            Box::new(SqlScenario { name: "c18-sorts-tight", family: Family::Sort, mode: Mode::Pressure, need_reference: true, weight: 2, dynamic_filters: false, nlj_focus: false, tight_sort: true }),
+            Box::new(SqlScenario { name: "c18-sorts", family: Family::Sort, mode: Mode::Pressure, need_reference: true, weight: 2, dynamic_filters: false, nlj_focus: false, tight_sort: false, file_tables: false, ordered_agg: false }),
+            Box::new(SqlScenario { name: "c18-aggregates", family: Family::Agg, mode: Mode::Pressure, need_reference: true, weight: 2, dynamic_filters: false, nlj_focus: false, tight_sort: false, file_tables: false, ordered_agg: false }),
+            Box::new(SqlScenario { name: "c18-joins", family: Family::Join, mode: Mode::Pressure, need_reference: true, weight: 2, dynamic_filters: false, nlj_focus: false, tight_sort: false, file_tables: false, ordered_agg: false }),
+            Box::new(SqlScenario { name: "c18-any", family: Family::Any, mode: Mode::Pressure, need_reference: false, weight: 1, dynamic_filters: false, nlj_focus: false, tight_sort: false, file_tables: false, ordered_agg: false }),
+            Box::new(SqlScenario { name: "c18-nlj", family: Family::Join, mode: Mode::Pressure, need_reference: true, weight: 1, dynamic_filters: false, nlj_focus: true, tight_sort: false, file_tables: false, ordered_agg: false }),
+            Box::new(SqlScenario { name: "c18-aggregates-ordered", family: Family::Agg, mode: Mode::Pressure, need_reference: true, weight: 1, dynamic_filters: false, nlj_focus: false, tight_sort: false, file_tables: false, ordered_agg: true }),
+            Box::new(SqlScenario { name: "c18-sorts-tight", family: Family::Sort, mode: Mode::Pressure, need_reference: true, weight: 2, dynamic_filters: false, nlj_focus: false, tight_sort: true, file_tables: false, ordered_agg: false }),
         ],
         cases_quick: 32_000,
         cases_thorough: 400_000,
@@ -96,7 +109,7 @@ pub fn c19() -> Check {
         property: "C19",
         level: "fault_enumeration",
         scenarios: vec![
-            Box::new(SqlScenario { name: "c19-drop", family: Family::Any, mode: Mode::Drop, need_reference: false, weight: 3, dynamic_filters: false, nlj_focus: false, tight_sort: false }),
+            Box::new(SqlScenario { name: "c19-drop", family: Family::Any, mode: Mode::Drop, need_reference: false, weight: 3, dynamic_filters: false, nlj_focus: false, tight_sort: false, file_tables: false, ordered_agg: false }),
             Box::new(crate::c19::YieldRepartition),
             Box::new(crate::c19::YieldSql),
             Box::new(crate::c19::YieldPlan),
@@ -114,8 +127,8 @@ pub fn c20() -> Check {
         property: "C20",
         level: "fault_enumeration",
         scenarios: vec![
-            Box::new(SqlScenario { name: "c20-faults", family: Family::Any, mode: Mode::Fault, need_reference: false, weight: 2, dynamic_filters: false, nlj_focus: false, tight_sort: false }),
-            Box::new(SqlScenario { name: "c20-faults-tight", family: Family::Sort, mode: Mode::Fault, need_reference: true, weight: 1, dynamic_filters: false, nlj_focus: false, tight_sort: true }),
+            Box::new(SqlScenario { name: "c20-faults", family: Family::Any, mode: Mode::Fault, need_reference: false, weight: 2, dynamic_filters: false, nlj_focus: false, tight_sort: false, file_tables: false, ordered_agg: false }),
+            Box::new(SqlScenario { name: "c20-faults-tight", family: Family::Sort, mode: Mode::Fault, need_reference: true, weight: 1, dynamic_filters: false, nlj_focus: false, tight_sort: true, file_tables: false, ordered_agg: false }),
             Box::new(crate::c10::RepartitionFaults),
             Box::new(crate::c20store::ScanFaults),
             Box::new(crate::c25::WriteFaults),
@@ -133,9 +146,12 @@ pub fn c31() -> Check {
         property: "C31",
         level: "exploration",
         scenarios: vec![
-            Box::new(SqlScenario { name: "c31-joins", family: Family::Join, mode: Mode::Exact, need_reference: true, weight: 3, dynamic_filters: true, nlj_focus: false, tight_sort: false }),
-            Box::new(SqlScenario { name: "c31-topk", family: Family::Sort, mode: Mode::Exact, need_reference: true, weight: 2, dynamic_filters: true, nlj_focus: false, tight_sort: false }),
-            Box::new(SqlScenario { name: "c31-aggregates", family: Family::Agg, mode: Mode::Exact, need_reference: true, weight: 1, dynamic_filters: true, nlj_focus: false, tight_sort: false }),
+            Box::new(SqlScenario { name: "c31-joins", family: Family::Join, mode: Mode::Exact, need_reference: true, weight: 3, dynamic_filters: true, nlj_focus: false, tight_sort: false, file_tables: false, ordered_agg: false }),
+            Box::new(SqlScenario { name: "c31-topk", family: Family::Sort, mode: Mode::Exact, need_reference: true, weight: 2, dynamic_filters: true, nlj_focus: false, tight_sort: false, file_tables: false, ordered_agg: false }),
+            Box::new(SqlScenario { name: "c31-aggregates", family: Family::Agg, mode: Mode::Exact, need_reference: true, weight: 1, dynamic_filters: true, nlj_focus: false, tight_sort: false, file_tables: false, ordered_agg: false }),
+            Box::new(SqlScenario { name: "c31-files-joins", family: Family::Join, mode: Mode::Exact, need_reference: true, weight: 2, dynamic_filters: true, nlj_focus: false, tight_sort: false, file_tables: true, ordered_agg: false }),
+            Box::new(SqlScenario { name: "c31-files-aggregates", family: Family::Agg, mode: Mode::Exact, need_reference: true, weight: 1, dynamic_filters: true, nlj_focus: false, tight_sort: false, file_tables: true, ordered_agg: false }),
+            Box::new(SqlScenario { name: "c31-files-topk", family: Family::Sort, mode: Mode::Exact, need_reference: true, weight: 2, dynamic_filters: true, nlj_focus: false, tight_sort: false, file_tables: true, ordered_agg: false }),
         ],
         cases_quick: 16_000,
         cases_thorough: 400_000,
